@@ -26,6 +26,8 @@ FOREIGN_TOKENS = [
     "4b825dc642cb6eb9a060e54bf8d69288fbee4904x",  # almost the empty tree
     "zz" * 20,
     "déjà",
+    # names git could resolve inside the collection's repository
+    "HEAD", "refs/heads/main", "refs/heads/master", "main", "HEAD~1", "@",
 ]
 
 PROP_READ = {
@@ -212,6 +214,15 @@ class DavSession:
             with fsmon.FaultInjector(self.world.root, fault) as fi:
                 resp = self.world.request(method, path, hdrs, body)
             self._fault_fired = fi.fired is not None
+            self._fault_gate = ""
+            if fi.fired is not None:
+                # which step of the write protocol the fault hit (fsmon gate names)
+                ev_, paths_ = fi.fired
+                coll = os.path.dirname(os.path.join(self.world.root, path.lstrip("/")))
+                try:
+                    self._fault_gate = fsmon.gate_name(ev_, paths_, coll)
+                except Exception:
+                    self._fault_gate = "?"
             return resp
         self._fault_fired = False
         return self.world.request(method, path, hdrs, body)
@@ -234,7 +245,8 @@ class DavSession:
         self.world.segmented_next = bool(segmented)  # (aiohttp: the request arrives in several segments)
         resp = self._request("PUT", path, hdrs, data, fault, external=external)
         ev = {"op": "Put", "c": c, "n": n, "b": b, "im": imr, "inm": inmr, "re": bool(re),
-              "fault": fault if self._fault_fired else 0, "ext": bool(external)}
+              "fault": fault if self._fault_fired else 0, "ext": bool(external),
+              "fgate": getattr(self, "_fault_gate", "") if self._fault_fired else ""}
         return self._record(ev, resp, {"m": "PUT", "path": path, "headers": hdrs,
                                        "body": data.decode("utf-8", "replace")})
 
@@ -262,7 +274,7 @@ class DavSession:
         path = self.slots[c] + "/" + n
         resp = self._request("DELETE", path, hdrs, None, fault, external=external)
         ev = {"op": "Delete", "c": c, "n": n, "im": imr, "fault": fault if self._fault_fired else 0,
-              "ext": bool(external)}
+              "ext": bool(external), "fgate": getattr(self, "_fault_gate", "") if self._fault_fired else ""}
         return self._record(ev, resp, {"m": "DELETE", "path": path, "headers": hdrs})
 
     def mk(self, c, kind, how="auto", props=()):
